@@ -1,7 +1,7 @@
 """C09 - Data-definition statements lay down exactly the documented bytes.
 
 Specification: spec/DataDef.tla (statement kinds x element types table: DC.B/W/L/Q/C/S/D/X, DB/DW/DD/DQ/DT, BYT/FCB,
-ADR/FDB, FCC, BYTE/WORD/LONG of the 16-bit-granular TMS320C2x; integer range rule -2^(8w-1)..2^(8w)-1; byte order;
+ADR/FDB, FCC, BYTE/WORD/LONG of the 16-bit-granular TMS320C2x, packed DB/DN (AVR code segment, z80) and AVR DATA with PACKING; integer range rule -2^(8w-1)..2^(8w)-1; byte order;
 strings through the CHARSET table (a function value changed by CHARSET statements: range, single entry, string, reset;
 assignments, never compositions), multi-character constants; nested DUP, [n] repeat, `?` reservations; PADDING;
 BIGENDIAN), spec/IEEE.tla (half/single/double/extended encoders in integer arithmetic: round-to-nearest-even,
@@ -19,14 +19,13 @@ subnormals, overflow), spec/Limb64.tla.
                 a statement assembled on both sides of CHARSET statements shows both tables.
 (G) every DataDef_MC case (statement x argument list x modes, expected layout printed by TLC) is rendered for
     68000 and 6809 (DC.x, big endian, PADDING on/off, odd/even start; code kept in words resp. bytes), z80 and 8051 (Dx, BIGENDIAN off/on), 6809 (FCB/FDB/FCC),
-    6502 (BYT/ADR) and 320C25 (BYTE/WORD/LONG, 16-bit granular), one `org` slot per case followed by a marker byte; the
+    6502 (BYT/ADR), 320C25 (BYTE/WORD/LONG, 16-bit granular) and atmega128 (packed DB/DN, DATA; DN also on the z80), one `org` slot per case followed by a marker byte; the
     code file is read back: pad + data bytes at the slot, marker at slot + pad + length (reservations: nothing but the
     marker at slot + pad + n).  Floats are written as exact dyadic expressions (m.0/2^k.0 spelled with exactly
     representable decimal literals) so that the host's decimal conversion is not in the loop.  Cases TLC evaluates to
     "error" must produce an error on their line and no bytes.
 Verdict-bearing: bytes, error/no error, address advance.  NOT covered: decimal->binary conversion of float literals,
-    DC.P (packed decimal), VAX/IBM float formats (vaxfloat.c, ibmfloat.c), DN nibble packing, AVR/PIC `DATA` packing
-    (PACKING), TI float formats, strings in float statements, empty strings, the 1 KByte per line limit.
+    DC.P (packed decimal), VAX/IBM float formats (vaxfloat.c, ibmfloat.c), PIC `DATA`, TI float formats, strings in float statements, empty strings, the 1 KByte per line limit.
 
 Known findings of the pinned tree (known_findings/C09.json, one proposed fix each): half precision subnormals truncated,
     string characters above 127 sign-extended in DW/DD/DQ/ADR/FDB, 0.0 in extended precision written with exponent 3C00h
@@ -49,6 +48,14 @@ Mutations of the real code tried (fresh copy of /repo, VERIF_REPO, ./check C09 -
       a <-> b, a..c -> X, set+reset, the same range twice, reset then swap; CHARSET statements between two copies of a
       statement; every case sets its map and resets it with a plain CHARSET): caught, 96 resp. 192 violations
       (`fcc [3]'Ab'` under A..Y -> B..Z lays down Bb Cb Db).
+    * (third seed round) intpseudo.c SubCodeFill: the sub-word borrow no longer decrements FullWordCnt -> only visible for
+      reservations inside DUP on packed targets.  Added: packed layouts (DataDef.tla LayoutPacked: DB two per word and DN four
+      per word in the AVR code segment, DN two per byte on the z80; elements per unit, LSB/low nibble first, padded last
+      unit, advance = ceil(n/E) units) with `?` and constants before / inside / behind DUP bodies, counts 1..5, bodies 1..3,
+      every sub-unit start position, nested DUP, and AVR DATA (strings two per word, integers a word each, PACKING ON: one byte
+      stream): caught, 116 violations "wrong address advance" (`db ?,3 dup (?,?,?),?` advances 8 words instead of 6).
+    Finding of the unchanged tree from that round (known_findings + proposed fix C09-avr-data-drops-pending-byte): AVR
+    `data "abc",0x1234` drops the character 'c' (codeavr.c PlaceValue).
 """
 import os
 
